@@ -278,3 +278,34 @@ Theorem C17_trace_PP_chain :
     trace_PP (chain_calls k surfs) P = trace_P k surfs P.
 Proof. exact trace_PP_chain. Qed.
 Print Assumptions C17_trace_PP_chain.
+Theorem C17_near_parallel_surface_bound :
+  forall (k0 k1 : V3 ROps) (e : CV3 ROps),
+       unit3 k0 ->
+       unit3 k1 ->
+       (norm3 (cross k0 k1) < par_tolR)%R ->
+       norm3 (cross k0 xhat) <> 0%R ->
+       (Rabs (cv_abs2 (m3_apply (surface_matrix k0 k1 None) e) - cv_abs2 e) <=
+        norm3 (cross k0 k1) * cv_abs2 e)%R.
+Proof. exact near_parallel_surface_bound. Qed.
+Print Assumptions C17_near_parallel_surface_bound.
+
+Theorem C17_uncoated_trace_intensity_bounds :
+  forall (surfs : list (V3 ROps * option Mat)) (k : V3 ROps) (P : Mat) (e : CV3 ROps),
+       unit3 k ->
+       chain_ok2 k surfs ->
+       ((1 - par_tolR) ^ Datatypes.length surfs * cv_abs2 (m3_apply P e) <=
+        cv_abs2 (m3_apply (trace_P k surfs P) e) <=
+        (1 + par_tolR) ^ Datatypes.length surfs * cv_abs2 (m3_apply P e))%R.
+Proof. exact uncoated_trace_intensity_bounds. Qed.
+Print Assumptions C17_uncoated_trace_intensity_bounds.
+
+Theorem C17_uncoated_trace_intensity_within :
+  forall (k : V3 ROps) (surfs : list (V3 ROps * option Mat)) (st : R * R * R * R),
+       launch_ok k ->
+       chain_ok2 k surfs ->
+       normalised st ->
+       ((1 - par_tolR) ^ Datatypes.length surfs <= intensity_pol (trace_P k surfs m3_id) k st <=
+        (1 + par_tolR) ^ Datatypes.length surfs)%R.
+Proof. exact uncoated_trace_intensity_within. Qed.
+Print Assumptions C17_uncoated_trace_intensity_within.
+
